@@ -1132,7 +1132,8 @@ func (g *gen) c13Random() *tcase {
 			for k := g.rng.Intn(4); k > 0; k-- {
 				d.args = append(d.args, g.pick([]string{"a", "..", "b", ".", "", "c/d", "/x", "e/", "//f", "../..", "/S/" + homeRel}))
 			}
-			if g.chance(0.2) {
+			// never climb above the sandbox root: there /S (one level) and the real root (two levels) differ
+			if g.chance(0.2) || strings.Count(strings.Join(d.args, "/"), "..") > 3 {
 				d.args = []string{"a", "..", "b"}
 			}
 		default:
